@@ -488,11 +488,17 @@ pub fn history(seed: u64, idx: u64) -> Case {
                         log.push(format!("server closed checked-out conn {}", k));
                         let _ = dead.insert(k);
                         *counters.entry("server_faults".into()).or_insert(0) += 1;
-                        // give it back at once: nothing else may be done with it
                         let (c, k) = held.swap_remove(i);
-                        let _ = return_seq.insert(k, server.seq.load(Ordering::SeqCst));
-                        idle.push(k);
-                        drop(c);
+                        if rng.chance(1, 3) {
+                            // the dead client is taken out of the pool instead: it leaves the registry like any other
+                            log.push(format!("take dead conn {}", k));
+                            taken.push((deadpool_postgres::Client::take(c), k));
+                        } else {
+                            // give it back at once: nothing else may be done with it
+                            let _ = return_seq.insert(k, server.seq.load(Ordering::SeqCst));
+                            idle.push(k);
+                            drop(c);
+                        }
                     } else {
                         v!("harness", "conn {} did not finish after the server closed it", k);
                     }
@@ -549,7 +555,10 @@ pub fn cache_race(seed: u64, idx: u64) -> Case {
     let mut rng = Rng::derive(seed, 0xC16A, idx);
     let rounds = rng.range(50, 400) as usize;
     let via_registry = rng.chance(1, 2);
-    let config_desc = format!("cache race: rounds={} clear_via_registry={}", rounds, via_registry);
+    // every third case: the other thread only removes a key that is not there - the cache never changes, so every
+    // prepare after the first of its kind is a hit and must not reach the server
+    let absent_only = idx % 3 == 2;
+    let config_desc = format!("cache race: rounds={} clear_via_registry={} other_thread_removes_absent_key_only={}", rounds, via_registry, absent_only);
     let rt = tokio::runtime::Builder::new_current_thread().enable_all().build().expect("rt");
     let mut viol: Vec<Violation> = Vec::new();
     let mut log: Vec<String> = vec![config_desc.clone()];
@@ -577,7 +586,13 @@ pub fn cache_race(seed: u64, idx: u64) -> Case {
             let p2 = pool.clone();
             std::thread::spawn(move || {
                 while !stop.load(Ordering::Relaxed) {
-                    if via_registry {
+                    if absent_only {
+                        if via_registry {
+                            p2.manager().statement_caches.remove("SELECT 'nobody prepared this'", &[]);
+                        } else {
+                            drop(cache.remove("SELECT 'nobody prepared this'", &[]));
+                        }
+                    } else if via_registry {
                         p2.manager().statement_caches.clear();
                     } else {
                         cache.clear();
@@ -605,6 +620,13 @@ pub fn cache_race(seed: u64, idx: u64) -> Case {
         }
         stop.store(true, Ordering::SeqCst);
         let _ = clearer.join();
+        if absent_only && viol.is_empty() {
+            let parses = server.conn(0).lock().unwrap().log.iter().filter(|(_, f)| matches!(f, Front::Parse { .. })).count();
+            let distinct = rounds.min(cat.len());
+            if parses != distinct {
+                viol.push(Violation { prop: "C16", oracle: "cache_hit_traffic", msg: format!("{} prepares of {} distinct statements while another thread removed an absent key: the server saw {} Parse messages (every repeat is a cache hit)", rounds, distinct, parses) });
+            }
+        }
         let _ = counters.insert("race_clears".into(), clears.load(Ordering::Relaxed));
         let _ = counters.insert("race_prepares".into(), rounds as u64);
         if viol.is_empty() {
